@@ -344,8 +344,8 @@ def pushWrap (k : OKind) (piece : List Char) (st : St) : St :=
 /-- the `for i, segment in enumerate(segments)` loop of `_output`; `first` = (`i == 0`).
 The loop inserts into the list it iterates over, hence the fuel. -/
 def outSegs (cfg : Cfg) (k : OKind) : Nat → Bool → List (List Char) → St → Res
-  | 0, _, _, st => .error (.fuel, st)
   | _, _, [], st => .ok st
+  | 0, _, _ :: _, st => .error (.fuel, st)
   | fuel + 1, first, seg :: rest, st =>
     match nlStep cfg first st with
     | .error e => .error e
